@@ -19,6 +19,9 @@ type mapRangeVerdict struct {
 	OK     bool
 	Idiom  string
 	Reason string
+	// Returned: result indexes through which a collected, not yet sorted slice leaves the
+	// function; the callers then owe the sort
+	Returned []int
 }
 
 // fnDecl finds the syntax of fn (FuncDecl body or FuncLit).
@@ -79,6 +82,13 @@ func checkMapRanges(c *core.Ctx, rule string, fn *ssa.Function) int {
 				return true
 			}
 			if v.OK {
+				for _, idx := range v.Returned {
+					if why := callersSort(c, fn, idx); why != "" {
+						v.OK, v.Reason = false, why
+					}
+				}
+			}
+			if v.OK {
 				c.OK(rule, key, rs.Pos(), "order-insensitive: "+v.Idiom)
 			} else {
 				c.Bad(rule, key, rs.Pos(), "iteration over a map whose body is not recognised as order-insensitive ("+v.Reason+"): the result may depend on Go's randomised map order and differ between nodes")
@@ -134,9 +144,15 @@ func classifyMapRange(pkg *packages.Package, fnBody *ast.BlockStmt, rs *ast.Rang
 		}
 	}
 	// collected slices must be sorted before any other use
+	var returned []int
 	for o := range m.collected {
-		if why := m.sortedAfter(o); why != "" {
+		why, ret := m.sortedAfter(o)
+		if why != "" {
 			return mapRangeVerdict{Stmt: rs, Reason: why}
+		}
+		if ret >= 0 {
+			returned = append(returned, ret)
+			m.idioms["sorted by every caller"] = true
 		}
 	}
 	var ids []string
@@ -147,7 +163,7 @@ func classifyMapRange(pkg *packages.Package, fnBody *ast.BlockStmt, rs *ast.Rang
 		ids = []string{"empty body"}
 	}
 	sortStrings(ids)
-	return mapRangeVerdict{Stmt: rs, OK: true, Idiom: strings.Join(ids, " + ")}
+	return mapRangeVerdict{Stmt: rs, OK: true, Idiom: strings.Join(ids, " + "), Returned: returned}
 }
 
 func sortStrings(s []string) {
@@ -536,20 +552,25 @@ func (m *mrCtx) pureExpr(e ast.Expr) bool {
 }
 
 // sortedAfter: the first statement after the range loop (in its enclosing statement list) that
-// mentions the collected slice expression must be a sort.* call on it.
-func (m *mrCtx) sortedAfter(expr string) string {
+// mentions the collected slice expression must be a sort.* call on it — or a return of exactly
+// that slice, in which case the result index is reported and the callers owe the sort.
+func (m *mrCtx) sortedAfter(expr string) (string, int) {
+	return firstUseSorts(m.pkg, m.fnBody, m.rs, expr, true)
+}
+
+func firstUseSorts(pkg *packages.Package, fnBody *ast.BlockStmt, anchor ast.Stmt, expr string, allowReturn bool) (string, int) {
 	var after []ast.Stmt
-	ast.Inspect(m.fnBody, func(n ast.Node) bool {
+	ast.Inspect(fnBody, func(n ast.Node) bool {
 		switch b := n.(type) {
 		case *ast.BlockStmt:
 			for i, st := range b.List {
-				if st == ast.Stmt(m.rs) {
+				if st == anchor {
 					after = b.List[i+1:]
 				}
 			}
 		case *ast.CaseClause:
 			for i, st := range b.Body {
-				if st == ast.Stmt(m.rs) {
+				if st == anchor {
 					after = b.Body[i+1:]
 				}
 			}
@@ -566,22 +587,117 @@ func (m *mrCtx) sortedAfter(expr string) string {
 		})
 		return found
 	}
+	callee := func(call *ast.CallExpr) *types.Func {
+		switch f := call.Fun.(type) {
+		case *ast.Ident:
+			fn, _ := pkg.TypesInfo.Uses[f].(*types.Func)
+			return fn
+		case *ast.SelectorExpr:
+			fn, _ := pkg.TypesInfo.Uses[f.Sel].(*types.Func)
+			return fn
+		}
+		return nil
+	}
 	for _, st := range after {
 		if !mentions(st) {
+			// lock release between collecting and sorting
 			continue
 		}
 		if es, ok := st.(*ast.ExprStmt); ok {
 			if call, ok := es.X.(*ast.CallExpr); ok {
-				if fn := m.calleeFunc(call); fn != nil && fn.Pkg() != nil && fn.Pkg().Path() == "sort" && !strings.HasPrefix(fn.Name(), "Search") {
+				if fn := callee(call); fn != nil && fn.Pkg() != nil && fn.Pkg().Path() == "sort" && !strings.HasPrefix(fn.Name(), "Search") {
 					if len(call.Args) > 0 && mentions(call.Args[0]) {
-						return ""
+						return "", -1
 					}
 				}
 			}
 		}
-		return fmt.Sprintf("slice %s collected from the map is used before being sorted (%s)", expr, m.pkg.Fset.Position(st.Pos()))
+		if rt, ok := st.(*ast.ReturnStmt); ok && allowReturn {
+			for i, r := range rt.Results {
+				if types.ExprString(r) == expr {
+					return "", i
+				}
+			}
+		}
+		return fmt.Sprintf("slice %s collected from the map is used before being sorted (%s)", expr, pkg.Fset.Position(st.Pos())), -1
 	}
-	return fmt.Sprintf("slice %s collected from the map is not sorted in the statements following the loop", expr)
+	return fmt.Sprintf("slice %s collected from the map is not sorted in the statements following the loop", expr), -1
+}
+
+// callersSort: every call of fn takes result #idx into a variable whose first later use is a sort.
+func callersSort(c *core.Ctx, fn *ssa.Function, idx int) string {
+	obj := fn.Object()
+	if obj == nil {
+		return "the unsorted slice is returned from a function literal"
+	}
+	callers := c.CG().Callers(fn)
+	if len(callers) == 0 {
+		return ""
+	}
+	for _, cl := range callers {
+		syn, pkg := fnSyntax(c, cl)
+		if syn == nil || pkg == nil {
+			return "the unsorted slice is returned to " + core.ShortFn(cl) + ", whose source is not available"
+		}
+		var body *ast.BlockStmt
+		switch x := syn.(type) {
+		case *ast.FuncDecl:
+			body = x.Body
+		case *ast.FuncLit:
+			body = x.Body
+		}
+		if body == nil {
+			continue
+		}
+		isCall := func(e ast.Expr) bool {
+			call, ok := e.(*ast.CallExpr)
+			if !ok {
+				return false
+			}
+			var id *ast.Ident
+			switch f := call.Fun.(type) {
+			case *ast.Ident:
+				id = f
+			case *ast.SelectorExpr:
+				id = f.Sel
+			}
+			return id != nil && pkg.TypesInfo.Uses[id] == obj
+		}
+		handled := map[ast.Expr]bool{}
+		why := ""
+		ast.Inspect(body, func(n ast.Node) bool {
+			if lit, ok := n.(*ast.FuncLit); ok && ast.Node(lit) != syn {
+				return false
+			}
+			as, ok := n.(*ast.AssignStmt)
+			if !ok || len(as.Rhs) != 1 || !isCall(as.Rhs[0]) || idx >= len(as.Lhs) {
+				return true
+			}
+			handled[as.Rhs[0]] = true
+			w, ret := firstUseSorts(pkg, body, as, types.ExprString(as.Lhs[idx]), false)
+			if w != "" && why == "" {
+				why = "in " + core.ShortFn(cl) + ": " + w
+			}
+			_ = ret
+			return true
+		})
+		if why != "" {
+			return why
+		}
+		ast.Inspect(body, func(n ast.Node) bool {
+			if lit, ok := n.(*ast.FuncLit); ok && ast.Node(lit) != syn {
+				return false
+			}
+			if e, ok := n.(ast.Expr); ok && isCall(e) && !handled[e] && why == "" {
+				why = fmt.Sprintf("in %s the unsorted result is used directly (%s)", core.ShortFn(cl), pkg.Fset.Position(e.Pos()))
+			}
+			return true
+		})
+		if why != "" {
+			return why
+		}
+	}
+	return ""
 }
 
 // orderNeutral: repository functions that may be called inside a map-range body without making
